@@ -377,7 +377,7 @@ Example C16_nonvacuous :
   qeqb (dice_score (q 1 4 : QcF) p g None) one = false /\
   (* a mask that is zero somewhere, on images that differ there *)
   qeqb (nth 0 (pointwise_loss sqd RMean s t (Some p)) zero)
-       (nth 0 (pointwise_loss sqd RMean [q 1 1; q 9 1; q 2 1; q 7 2] t (Some p)) zero) = true /\
+       (nth 0 (pointwise_loss sqd RMean ([q 1 1; q 9 1; q 2 1; q 7 2] : list QcF) t (Some p)) zero) = true /\
   qeqb (nth 0 (pointwise_loss sqd RMean s t (Some p)) zero) zero = false /\
   (* windows of a 3 x 4 image with a 3 x 3 kernel: corner has 4 members, interior 9 *)
   (length (box_nb [3; 4] [3; 3] 0), length (box_nb [3; 4] [3; 3] 5))%nat = (4, 9)%nat.
